@@ -197,6 +197,12 @@ def simulate(cfg: CFG, env: Callable[[ast.expr], Optional[bool]], start: Optiona
 def raised_class(ctx: Ctx, fn: FuncInfo, outcome: Outcome) -> Optional[ClassInfo]:
     """Class of the exception raised by a 'raise' outcome (through a local if needed)."""
     stmt = outcome.stmt
+    if isinstance(stmt, ast.Raise) and stmt.exc is None:
+        # a bare re-raise: the exception in flight is the one raised last on this path (when the path shows it)
+        for node in reversed(outcome.trail[:-1]):
+            if isinstance(node.ast, ast.Raise) and node.ast.exc is not None and node.ast is not stmt:
+                stmt = node.ast
+                break
     if not isinstance(stmt, ast.Raise) or stmt.exc is None:
         return None
     exc = stmt.exc
@@ -347,8 +353,11 @@ def run_int_cfg(
                 try:
                     val = bool(int_eval(stmt, atoms))
                 except Unevaluable:
-                    run.end = "stuck:" + norm(stmt)
-                    return run
+                    if isinstance(stmt, ast.Call) and isinstance(stmt.func, ast.Attribute) and stmt.func.attr == "isEnabledFor":
+                        val = False  # "is this log level on?": the guarded block only logs
+                    else:
+                        run.end = "stuck:" + norm(stmt)
+                        return run
             nxt = [n for n, lab in cfg.succ[node.id] if lab == val]
             if not nxt:
                 run.end = "stuck"
